@@ -135,7 +135,32 @@ def file_write(ex, p, args, kwargs, e): return VNone()          # args[0] is the
 def file_close(ex, p, args, kwargs, e): return VNone()
 
 
+# ---- reading a text file (T8 / T7): the file is a list of NLINES lines; line i has LTOKLEN(i) tokens LTOK(i)[q]
+NLINES = z3.Int('FILE.nlines'); LTOKLEN = z3.Function('FILE.ntok', I, I); LTOK = z3.Function('FILE.tok', I, z3.ArraySort(I, Tok))
+LTIES = z3.Function('FILE.ties', I, z3.ArraySort(I, I))          # ghost: the tie decisions the list on line i was written from
+
+
+def line_tokens(ex, t):
+    return VList(LTOKLEN(t), LTOK(t), 'tok')
+
+
+def iter_file(ex, v, p, line):
+    p.assume(NLINES >= 0)
+    return NLINES, (lambda k: VLine(k)), None, None
+
+
+def spec_file_len(ex, e, p): return VInt(NLINES)
+def spec_line_toks(ex, e, p):
+    i = ex.ev(e.args[0], p).t; p.assume(LTOKLEN(i) >= 0) if hasattr(p, 'assume') else None
+    return line_tokens(ex, i)
+def spec_line_ties(ex, e, p):
+    i = ex.ev(e.args[0], p).t
+    return VList(LTOKLEN(i), LTIES(i), 'int')
+
+
 def install(ex):
+    ex.iter_models['file'] = iter_file
+    ex.spec_ext['file_len'] = spec_file_len; ex.spec_ext['line_toks'] = spec_line_toks; ex.spec_ext['line_ties'] = spec_line_ties
     ex.ext_models['os.path.exists'] = os_path_exists; ex.ext_models['os.makedirs'] = os_makedirs
     ex.ext_models['open'] = builtin_open; ex.ext_models['file.write'] = file_write; ex.ext_models['file.close'] = file_close
     ex.ext_models['datetime.datetime.now'] = datetime_now
